@@ -34,3 +34,40 @@ SPECS["C17"] = dict(
     trusted_base=["Rust std::io::Read contract (a reader never reports more bytes than the buffer holds)"],
     assumptions=["64-bit usize; allocation failure (OOM abort) not modelled"],
 )
+
+SPECS["C15"] = dict(
+    title="SlidingDeque behaves like a double-ended queue with a contiguous view",
+    lean_modules=["Woodpile.Props.C15"],
+    theorems=[
+        "Woodpile.Props.C15.inv_iff",
+        "Woodpile.Props.C15.checkRep_iff_inv",
+        "Woodpile.Props.C15.rep_inv_init",
+        "Woodpile.Props.C15.refines_list",
+        "Woodpile.Props.C15.rep_inv",
+        "Woodpile.Props.C15.no_panic",
+        "Woodpile.Props.C15.run_refines_list",
+        "Woodpile.Props.C15.run_from_new",
+        "Woodpile.Props.C15.run_snoc",
+    ],
+    families=[dict(name="sdeque", quick=3000, thorough=200000)],
+    technique="Lean 4 proof (representation invariant = check_rep, per-operation refinement of a List deque, induction over "
+              "operation sequences) + model/implementation correspondence on Vec- and SmallVec-backed deques",
+    design_ref="DESIGN.md section 5, C15",
+    level_text=("Kernel-checked theorems about a Lean model of sliding_deque::SlidingDeque (Woodpile.SlidingDeque: every public "
+                "method incl. maybe_slide/slide and every check_rep evaluation, panics = none) for every element type and every "
+                "operation sequence: each operation returns what a reference List deque returns and leaves the same view "
+                "(refines_list), the invariant consumed <= len/2 and (empty -> consumed = 0) is exactly check_rep and is preserved "
+                "(rep_inv), hence no check_rep or bounds check fails (no_panic), lifted to all operation lists from new()/From "
+                "(run_refines_list). The model is tied to /repo by running the real SlidingVec<u32> and SlidingSmallVec<[u32;4]> "
+                "and the compiled model on all op sequences up to length 6 (7 thorough) over an 11-symbol alphabet plus random "
+                "sequences up to 200 ops and diffing return values, slice views and lengths; a direct oracle compares both real "
+                "deques with std VecDeque and checks the space bound on the real representation."),
+    level_note=("Trusted: Lean kernel + 3 standard axioms; the correspondence harness and its generators; Vec/SmallVec behind "
+                "PushTruncateContainer (push/pop/truncate/slice) are modelled as a List. The space bound is not observable through "
+                "the public API proper: the harness is built with debug assertions on, so a violation is a check_rep panic "
+                "(reported as an oracle violation), and it is additionally read off the derived Debug output when that has the "
+                "expected shape."),
+    trusted_base=["std Vec / smallvec SmallVec implement push, pop, truncate and slices as a sequence (PushTruncateContainer)"],
+    assumptions=["64-bit usize (lengths and advance counts are unbounded naturals in the model)",
+                 "slide() is modelled as compiled with debug assertions; the release-build early return yields the same state"],
+)
